@@ -164,8 +164,9 @@ class Printer:
     def hoist_call(self, text, node):
         if getattr(self, 'hoisted', None) is None:
             raise Unsupported('hoisted (!^) call in a context that cannot take a statement in front')
-        if self.hoisted:
-            raise Unsupported('two hoisted (!^) calls in one statement: evaluation order would have to be modelled')
+        # several hoisted calls of one statement are emitted in source order; C++ leaves the evaluation order of
+        # function arguments unspecified, so the spec may mark callees '!^' only when they are independent of each
+        # other (pure up to throwing), which makes every order equivalent
         self.may_throw = True
         self.tmp += 1
         t = f'nv_call{self.tmp}'
